@@ -1284,25 +1284,31 @@ func c07Include(c *an.Ctx) {
 		return
 	}
 	n := 0
-	an.Instrs(fn, func(in ssa.Instruction) {
-		if !an.IsCallTo(in, ff) {
-			return
-		}
-		n++
-		f := an.FactsAt(in)
-		ok := false
-		for _, a := range f {
-			if strings.Contains(a.L, "includeCount") && (a.Op == "<" || a.Op == "<=") {
-				ok = true
+	// the recursion may sit in evaluateLine or in a private method of the parser it hands the Include to
+	fns := append([]*ssa.Function{fn}, privateCallees(fn, "internal/seclang")...)
+	inFns := map[*ssa.Function]bool{}
+	for _, f := range fns {
+		inFns[f] = true
+		an.Instrs(f, func(in ssa.Instruction) {
+			if !an.IsCallTo(in, ff) {
+				return
 			}
-		}
-		c.Check(ok, "R7", "Include recursion bounded", in.Pos(), "the recursive FromFile call is dominated by includeCount < bound", "the Include directive recurses into FromFile without a dominating bound on the include counter: a self-including file would recurse until the stack overflows", f.Strings()...)
-	})
+			n++
+			fa := an.FactsAt(in)
+			ok := false
+			for _, a := range fa {
+				if strings.Contains(a.L, "includeCount") && (a.Op == "<" || a.Op == "<=") {
+					ok = true
+				}
+			}
+			c.Check(ok, "R7", "Include recursion bounded", in.Pos(), "the recursive FromFile call is dominated by includeCount < bound", "the Include directive recurses into FromFile without a dominating bound on the include counter: a self-including file would recurse until the stack overflows", fa.Strings()...)
+		})
+	}
 	c.MinCount("R7", "recursive FromFile calls in evaluateLine", n, 1)
 	// the counter is incremented before the call
 	inc := false
 	for _, fs := range c.P.StoresToField("internal/seclang", "Parser", "includeCount") {
-		if fs.Fn == fn && strings.Contains(an.Expr(fs.Store.Val), "includeCount + 1") {
+		if inFns[fs.Fn] && strings.Contains(an.Expr(fs.Store.Val), "includeCount + 1") {
 			inc = true
 		}
 	}
